@@ -618,6 +618,10 @@ func (w *World) streamOp(ci int, conn *rpc.Conn, op *Op) {
 		if rec.stream == nil || rec.ClientReadErr == "" {
 			return
 		}
+		// "later" calls: let the connection's reader finish tearing the stream down first (while
+		// it is still between failing the pending calls and stopping the streams, a read may
+		// return the connection's error and a write is silently dropped)
+		simrt.Sleep(time.Millisecond)
 		var m Msg
 		var arg interface{} = &m
 		out := &Msg{ID: 1, Pad: MakePad(1, 4)}
